@@ -300,15 +300,37 @@ func headersFromContext(ctx context.Context) []*goatorepo.KeyValue {
 		h = append(h, internal.ToKeyValue(md)...)
 	}
 	if deadline, ok := ctx.Deadline(); ok {
-		timeout := time.Until(deadline)
-		ms := int64(timeout / time.Millisecond)
-		if ms <= 0 {
-			ms = 1
-		}
 		h = append(h, &goatorepo.KeyValue{
 			Key:   "GRPC-Timeout",
-			Value: fmt.Sprintf("%dm", ms),
+			Value: encodeGrpcTimeout(time.Until(deadline)),
 		})
 	}
 	return h
+}
+
+// encodeGrpcTimeout renders a timeout in the gRPC wire format, which allows at
+// most 8 digits before the unit. Milliseconds (at least 1) are used as long as
+// they fit; a longer timeout falls back to the finest coarser unit that fits,
+// so that it still reaches the server rather than being ignored as malformed.
+func encodeGrpcTimeout(timeout time.Duration) string {
+	const maxTimeoutValue = 99999999
+
+	ms := int64(timeout / time.Millisecond)
+	if ms <= 0 {
+		ms = 1
+	}
+	if ms <= maxTimeoutValue {
+		return fmt.Sprintf("%dm", ms)
+	}
+	if s := int64(timeout / time.Second); s <= maxTimeoutValue {
+		return fmt.Sprintf("%dS", s)
+	}
+	if m := int64(timeout / time.Minute); m <= maxTimeoutValue {
+		return fmt.Sprintf("%dM", m)
+	}
+	hours := int64(timeout / time.Hour)
+	if hours > maxTimeoutValue {
+		hours = maxTimeoutValue
+	}
+	return fmt.Sprintf("%dH", hours)
 }
